@@ -9,6 +9,7 @@ import TinsModel.Wire.App.TheoremsReparse
 import TinsModel.Wire.App.TheoremsApi
 import TinsModel.Wire.App.TheoremsOptApi
 import TinsModel.Wire.App.TheoremsExamples
+import TinsModel.Wire.App.ThFamily
 /-
   Per-layer theorems of the App family for the four wire properties (C01 parse_safe, C02 writesOnly, C03 reparse,
   C04 codec inverses).  This module only gathers the per-class files (it is what `Props/C01..C04` import):
@@ -23,6 +24,9 @@ import TinsModel.Wire.App.TheoremsExamples
                       back the last value set, other members untouched
     TheoremsOptApi  — DHCP / DHCPv6 / BootP: every modelled public call keeps the invariant
     TheoremsExamples — non-vacuity: concrete non-trivial inputs/states satisfying the theorems' hypotheses
+    ThNoCls         — C01: ARP, STP, RTP, BootP, DHCP, DHCPv6 never build an inner class (chain termination)
+    ThOptInv        — DHCP / DHCPv6: the `uint32_t` (modular) size invariant, established by every parse, kept by every call
+    ThFamily        — family-level theorems over `App.parse/hdr/trl/write/mk/apply` (what the registry dispatches to)
     TheoremsCodec   — C04: option look-up after add/remove, typed option codecs of DHCP and DHCPv6
   Every theorem is listed with `#print axioms` in lean/Audit/WireApp.lean.
 -/
